@@ -250,6 +250,20 @@ def structured_mul(rng):
             b = rng.getrandbits(rng.randint(64, 127))
         for (sa, sb) in ((1, 1), (-1, 1), (1, -1), (-1, -1)):
             cases.append(("mul", sa * a, p, sb * b, q))
+    # 256-bit path, rounded result within +-3 of i128::MAX: a = 10^shift + j, b = MAX - m
+    for p in range(1, 19):
+        for q in range(19 - p, 19):
+            shift = p + q - 18
+            for j in (1, 2, 3, 7, 10 ** (shift - 1) + 1, 5 * 10 ** (shift - 1)):
+                a = 10 ** shift + j
+                m0 = I128_MAX - (I128_MAX * 10 ** shift) // a
+                for m in range(m0 - 3, m0 + 4):
+                    b = I128_MAX - m
+                    if 0 < b <= I128_MAX:
+                        cases.append(("mul", a, p, b, q))
+                        cases.append(("mul", -a, p, b, q))
+                        cases.append(("mul", b, q, -a, p))
+                        cases.append(("mul", -b, q, -a, p))
     # nfd sum <= 18: plain checked_mul boundary
     for _ in range(200):
         p = rng.randint(0, 18)
@@ -500,7 +514,7 @@ def random_case(rng):
         if op in ("eq", "cmp") and k < 0.5:
             # nearly equal values
             if p >= q:
-                b = a // 10 ** (p - q) + rng.choice([0, 0, 1, -1])
+                b = clamp(a // 10 ** (p - q) + rng.choice([0, 0, 1, -1]))
             else:
                 b = clamp(a * 10 ** (q - p) + rng.choice([0, 0, 1, -1]))
         if op in ("add", "sub") and k < 0.3:
@@ -527,28 +541,35 @@ def random_case(rng):
     return ("fromstr", rand_fromstr(rng))
 
 
-def gen_cases(seed, total):
-    rng = random.Random(seed)
-    cases = []
-    cases += structured_binops()
-    cases += structured_addsub_boundary()
-    cases += structured_mul(rng)
-    cases += structured_div(rng)
-    cases += structured_unary()
-    cases += [("fromstr", s) for s in FROMSTR_FIXED]
-    # dedupe, keep order
+def dedupe(cases):
     seen = set()
     out = []
     for c in cases:
         if c not in seen:
             seen.add(c)
             out.append(c)
-    cases = out
-    if len(cases) > total * 3 // 4:
-        # keep a deterministic sample of the structured part so that random cases get their share
-        rng2 = random.Random(seed + 1)
-        idx = sorted(rng2.sample(range(len(cases)), total * 3 // 4))
-        cases = [cases[i] for i in idx]
+    return out
+
+
+def gen_cases(seed, total):
+    """the fixed from_str list always; then a deterministic sample of every structured
+    group (all of it if it fits its quota); the rest random"""
+    rng = random.Random(seed)
+    groups = [
+        (0.25, dedupe(structured_binops())),
+        (0.08, dedupe(structured_addsub_boundary())),
+        (0.15, dedupe(structured_mul(rng))),
+        (0.18, dedupe(structured_div(rng))),
+        (0.09, dedupe(structured_unary())),
+    ]
+    cases = [("fromstr", s) for s in FROMSTR_FIXED]
+    for frac, g in groups:
+        quota = int(total * frac)
+        if len(g) > quota:
+            idx = sorted(rng.sample(range(len(g)), quota))
+            g = [g[i] for i in idx]
+        cases += g
+    cases = cases[:total]
     while len(cases) < total:
         cases.append(random_case(rng))
     return cases
@@ -573,7 +594,7 @@ STRING_RE = re.compile(r'"((?:[^"]|"")*)"')
 
 
 def run_coq_shard(args):
-    workdir, idx, cases, printer_src = args
+    workdir, idx, cases, printer_src, coq_root = args
     name = "cases_%03d" % idx
     path = os.path.join(workdir, name + ".v")
     with open(path, "w") as f:
@@ -581,7 +602,7 @@ def run_coq_shard(args):
         f.write("\nDefinition cases : list tcase := [\n  ")
         f.write(";\n  ".join(case_coq(c) for c in cases))
         f.write("\n].\nEval vm_compute in (List.map run cases).\n")
-    r = sh(["coqc", "-Q", COQ_ROOT, "QV", name + ".v"], cwd=workdir)
+    r = sh(["coqc", "-Q", coq_root, "QV", name + ".v"], cwd=workdir)
     if r.returncode != 0:
         raise RuntimeError("coqc failed on %s:\n%s" % (path, r.stderr.decode()[-3000:]))
     out = r.stdout.decode()
@@ -593,9 +614,9 @@ def run_coq_shard(args):
     return res
 
 
-def run_coq(workdir, cases, jobs):
+def run_coq(workdir, cases, jobs, coq_root=COQ_ROOT):
     printer_src = open(os.path.join(HERE, "printer.v")).read()
-    shards = [(workdir, i, cases[k:k + SHARD], printer_src) for i, k in enumerate(range(0, len(cases), SHARD))]
+    shards = [(workdir, i, cases[k:k + SHARD], printer_src, coq_root) for i, k in enumerate(range(0, len(cases), SHARD))]
     with ThreadPoolExecutor(max_workers=jobs) as ex:
         results = list(ex.map(run_coq_shard, shards))
     return [x for r in results for x in r]
@@ -623,15 +644,27 @@ def run_rust_lits(workdir, lits, rejected):
         r = sh([exe])
         return r.stdout.decode().splitlines(), ""
 
-    out = []
-    res, err = compile_run("lits", [c[1] for c in lits])
-    if res is None:
-        # fall back to one by one to find the offenders
-        for i, c in enumerate(lits):
-            r1, _ = compile_run("lit_one", [c[1]])
-            out.append("None" if r1 is None else r1[0])
+    # compile all literals in one file; literals rustc rejects (the macro panicked)
+    # are located through the line numbers in the error messages, recorded as
+    # "None" and taken out, until the rest compiles
+    out = [None] * len(lits)
+    live = list(range(len(lits)))
+    for _round in range(10):
+        res, err = compile_run("lits", [lits[i][1] for i in live])
+        if res is not None:
+            for i, line in zip(live, res):
+                out[i] = line
+            break
+        badlines = set(int(m.group(1)) for m in re.finditer(r"lits\.rs:(\d+):\d+", err))
+        # literal k of this round is on source line k + 5
+        badidx = set(live[l - 5] for l in badlines if 0 <= l - 5 < len(live))
+        if not badidx:
+            sys.exit("cannot locate the rejected literals:\n" + err[-3000:])
+        for i in badidx:
+            out[i] = "None"
+        live = [i for i in live if i not in badidx]
     else:
-        out += res
+        sys.exit("literal file still does not compile")
     for i, c in enumerate(rejected):
         r1, _ = compile_run("lit_rej", [c[1]])
         out.append("None" if r1 is None else r1[0])
@@ -644,6 +677,8 @@ def main():
     ap.add_argument("--cases", type=int, default=20000)
     ap.add_argument("--workdir", default=None)
     ap.add_argument("--jobs", type=int, default=min(12, os.cpu_count() or 2))
+    ap.add_argument("--coq-root", default=COQ_ROOT,
+                    help="directory bound to the logical path QV (default /verif/coq); for mutation-testing the test")
     ap.add_argument("--show", type=int, default=25, help="number of disagreements to print")
     args = ap.parse_args()
     workdir = args.workdir or "/tmp/decwork/run-seed%d" % args.seed
@@ -675,7 +710,7 @@ def main():
     rust += run_rust_lits(workdir, lits, rejected)
     t1 = time.time()
 
-    coq = run_coq(workdir, all_cases, args.jobs)
+    coq = run_coq(workdir, all_cases, args.jobs, args.coq_root)
     t2 = time.time()
 
     agree = 0
